@@ -212,6 +212,17 @@ def native_limiter_fresh_window_lost_at_completion(case, mismatch):
         fresh = [i for i in ids if i not in got and src_term[1] - emitted[i]['u'] < window]
         if len(fresh) < need - len(got):
             return False      # items are missing that had been emitted a full window before the end: not this finding
+    # the per-item clause (an item is held back only by `quota` recent earlier items of its own key): same finding when every such item is fresh
+    slack = 3 * window + 50000
+    for i, v in emitted.items():
+        pk = passed.get(v['key'], [])
+        if any(p['id'] == i for p in pk):
+            continue
+        if sum(1 for p in pk if p['id'] < i and p['ru'] >= v['u'] - slack) >= quota:
+            continue
+        if src_term[1] - v['u'] >= window:
+            return False
+        bad = True
     return bad
 
 
